@@ -39,7 +39,9 @@ structure EFSInv (cfg : Cfg) (s0 : State) (c2 : Counters) (vac : List Nat) (scan
   done : ∀ j, j < k → (s.slots.getD j Slot.empty).active
       = keepOf cfg.order (s0.slots.getD j Slot.empty) ∧
     ((s.slots.getD j Slot.empty).status = .inactive ∨ (s.slots.getD j Slot.empty).status = .alive ∨
-      (s.slots.getD j Slot.empty).status = .initializing)
+      (s.slots.getD j Slot.empty).status = .initializing) ∧
+    ((s0.slots.getD j Slot.empty).status = .alive →
+      s.slots.getD j Slot.empty = s0.slots.getD j Slot.empty)
   frame : s.vacancies = vac ∧ s.secCounts = scanned ∧ s.c = c2 ∧ s.pending = s0.pending ∧
     s.indices = s0.indices
 
@@ -101,9 +103,11 @@ theorem efs_loop {cfg : Cfg} {s0 : State} {c2 : Counters} {vac scanned : List Na
         subst this
         have h1 := hstep.act
         have h2 := hstep.st
+        have h3 := hstep.aliveSame
         rw [hI.lens.cfg_eq, hgetk] at h1
+        rw [hgetk] at h3
         rw [hget0]
-        exact ⟨h1, h2⟩
+        exact ⟨h1, h2, h3⟩
     · obtain ⟨f1, f2, f3, f4, f5⟩ := hstep.frame
       obtain ⟨g1, g2, g3, g4, g5⟩ := hI.frame
       exact ⟨f1.trans g1, f2.trans g2, f3.trans g3, f4.trans g4, f5.trans g5⟩
